@@ -12,7 +12,7 @@ import argparse, json, os, shutil, subprocess, sys, time
 from concurrent.futures import ThreadPoolExecutor
 
 ROOT = os.path.dirname(os.path.dirname(os.path.abspath(__file__)))
-PAR = "/tmp/par"
+PAR = "/tmp/par/%d" % os.getpid()
 ALL = ["C%02d" % i for i in range(1, 21)]
 
 
@@ -98,6 +98,7 @@ def main():
             meta["last_run"] = {"tier": args.tier, "results": res}
             meta["caught_by"] = sorted(p for p, v in res.items() if v["rc"] == 1)
         json.dump(meta, open(mp, "w"), indent=1)
+    shutil.rmtree(PAR, ignore_errors=True)
     summ = {sid: ({p: v["rc"] for p, v in r.items()} if "error" not in r else r) for sid, r in sorted(results.items())}
     print(json.dumps(summ, indent=1))
     if sdir == "seeded":
